@@ -580,6 +580,19 @@ def _p1_partial_ops(rep, M, sink):
                 sink(Escape(cls, f"decode_p1_readout_content:{text.split(' of ')[0]}", line, f"{text} (unit {unit!r}, address {addr})"))
             if r[0] == "raise" and r[1] not in ("ValueError",):
                 sink(Escape(r[1], "decode_p1_readout_content:raise", dc.node.lineno, f"decoding a well-formed data set raises {r[1]} (unit {unit!r}, address {addr})"))
+    # boundary texts of each value class, concretely: lengths around every fixed position a decoder might index, non-numbers, huge exponents
+    samples = {"0-0:1.0.0": ["210222161900W", "210222161900", "21022216190", "2102221619", "2102", "", "x" * 20, "210222161900WS", "९९०२२२१६१९००"],
+               "1-0:1.8.0": ["1.5", "", "abc", "1e999", "nan", "-1", "1_0", " 1 ", "0x10", "1,5"]}
+    for addr, texts in samples.items():
+        for unit in ("kWh", "V", None):
+            for text in texts:
+                A = AbsEval(M, hooks={"Obis.from_string": obis_hook})
+                items = [AObj("DataSet", {"address": addr, "values": [AObj("DataSetValue", {"value": text, "unit": unit}, cls_key=("dlde", "DataSetValue"))]}, cls_key=("dlde", "DataSet"))]
+                A.func_hooks[("dlde", pc.node.name)] = lambda args, kw, items=items: list(items)
+                r = A.apply(dc, [b"x"])
+                n += 1
+                if r[0] == "raise" and r[1] != "ValueError":
+                    sink(Escape(r[1], f"decode_p1_readout_content:{r[1]}", dc.node.lineno, f"decoding the value text {text!r} (unit {unit!r}, address {addr}) raises {r[1]}"))
     return n
 
 
